@@ -106,6 +106,10 @@ type c09Plan struct {
 	reads    int
 	advances []c09Advance
 	toggles  []uint32
+	// paced: updaters and readers keep going (cycling through their entries,
+	// with short sleeps) until the advancer is done; used when the rollover is
+	// left to the real hourly loop, which polls once per second.
+	paced bool
 }
 
 // c09Advance is one rollover of a round.
@@ -125,6 +129,8 @@ func (c *c09Conc) runRound(p *c09Plan) (ops []c09COp) {
 	results := make([][]c09COp, c09Updaters+c09Readers)
 	roundBase := c.completed.Load()
 	var updatersDone atomic.Int32
+	var advDone atomic.Bool
+	const pacedMax = 20000 // safety bound per goroutine
 
 	for g := 0; g < c09Updaters; g++ {
 		wg.Add(1)
@@ -133,7 +139,17 @@ func (c *c09Conc) runRound(p *c09Plan) (ops []c09COp) {
 			defer updatersDone.Add(1)
 			<-gate
 			var mine []c09COp
-			for i, e := range p.entries[g] {
+			for n := 0; ; n++ {
+				if p.paced {
+					if advDone.Load() || n >= pacedMax {
+						break
+					}
+					time.Sleep(400 * time.Microsecond)
+				} else if n >= len(p.entries[g]) {
+					break
+				}
+				i := n % len(p.entries[g])
+				e := p.entries[g][i]
 				for y := 0; y < p.yields[g][i]; y++ {
 					runtime.Gosched()
 				}
@@ -164,9 +180,15 @@ func (c *c09Conc) runRound(p *c09Plan) (ops []c09COp) {
 			defer wg.Done()
 			<-gate
 			var mine []c09COp
-			for i := 0; i < p.reads; i++ {
-				if i > 0 && updatersDone.Load() == c09Updaters && p.reads > 8 {
-					break // free-running mode: stop once the updaters are done
+			for i := 0; i < p.reads || p.paced; i++ {
+				if i > 0 && updatersDone.Load() == c09Updaters && (p.reads > 8 || p.paced) {
+					break // free-running / paced mode: stop once the updaters are done
+				}
+				if p.paced {
+					if i >= pacedMax {
+						break
+					}
+					time.Sleep(2 * time.Millisecond)
 				}
 				op := c09COp{Client: c09Updaters + rd, Kind: "read"}
 				op.Lo = c.completed.Load()
@@ -210,7 +232,10 @@ func (c *c09Conc) runRound(p *c09Plan) (ops []c09COp) {
 				}
 				c.seq.Add(1) // even: done
 			}
+			advDone.Store(true)
 		}()
+	} else {
+		advDone.Store(true)
 	}
 	var togProblem string
 	if len(p.toggles) > 0 {
@@ -427,9 +452,15 @@ func (c *c09Conc) quiescent(where string) *c09Resp {
 	return r
 }
 
-// c09ConcHistory runs one concurrent history.  free selects the free-running
-// shape (one long round, no porcupine), otherwise several short rounds.
-func c09ConcHistory(rep *verifkit.Report, rng *rand.Rand, dir string, idx int, free, loopHistory bool) {
+// c09ConcHistory runs one concurrent history.  Shapes: "rounds" (several
+// short rounds, each checked with porcupine; the advancer calls flush()),
+// "free" (one long round, several rollovers through flush()), "loop" (the
+// real Start() loop is the only flusher; traffic is paced until it has done
+// the rollovers).  flush() has exactly one caller in every shape, as in the
+// product.
+func c09ConcHistory(rep *verifkit.Report, rng *rand.Rand, dir string, idx int, shape string) {
+	free := shape != "rounds"
+	loopHistory := shape == "loop"
 	file := filepath.Join(dir, fmt.Sprintf("conc-%d.db", idx))
 	defer os.Remove(file)
 	hour := &atomic.Uint32{}
@@ -437,9 +468,9 @@ func c09ConcHistory(rep *verifkit.Report, rng *rand.Rand, dir string, idx int, f
 	c := &c09Conc{rep: rep, hour: hour, start: time.Now(), limitH: []uint32{24, 24, 168}[rng.Intn(3)]}
 	c.hoursTable = []uint32{hour.Load()}
 	withToggles := rng.Intn(3) == 0
-	c.desc = map[string]any{"index": idx, "first_hour": hour.Load(), "limit_hours": c.limitH, "free_running": free,
+	c.desc = map[string]any{"index": idx, "first_hour": hour.Load(), "limit_hours": c.limitH, "shape": shape,
 		"updaters": c09Updaters, "readers": c09Readers, "retention_toggled_during_traffic": withToggles}
-	in, err := c09Open(file, hour, c.limitH, true, true)
+	in, err := c09Open(file, hour, c.limitH, true, loopHistory)
 	if err != nil {
 		rep.Violate("conc:new-failed", "stats.New failed on a fresh file: "+err.Error(), c.desc)
 		return
@@ -487,15 +518,18 @@ func c09ConcHistory(rep *verifkit.Report, rng *rand.Rand, dir string, idx int, f
 			}
 		}
 		switch {
+		case loopHistory:
+			p.paced = true
+			for i := 0; i < 2; i++ {
+				p.advances = append(p.advances, c09Advance{Hours: 1 + uint32(rng.Intn(2)), After: 150 * (i + 1), ViaLoop: true})
+			}
 		case free:
 			k := 3 + rng.Intn(3)
 			for i := 0; i < k; i++ {
-				p.advances = append(p.advances, c09Advance{Hours: 1 + uint32(rng.Intn(2)),
-					After: nValid * (i + 1) / (k + 1), ViaLoop: loopHistory && i == 1})
+				p.advances = append(p.advances, c09Advance{Hours: 1 + uint32(rng.Intn(2)), After: nValid * (i + 1) / (k + 1)})
 			}
 		case rng.Intn(100) < 70:
-			p.advances = append(p.advances, c09Advance{Hours: 1 + uint32(rng.Intn(2)),
-				After: rng.Intn(nValid*3/4 + 1), ViaLoop: loopHistory && rd%3 == 1})
+			p.advances = append(p.advances, c09Advance{Hours: 1 + uint32(rng.Intn(2)), After: rng.Intn(nValid*3/4 + 1)})
 		}
 		if withToggles {
 			other := uint32(24)
@@ -521,8 +555,19 @@ func c09ConcHistory(rep *verifkit.Report, rng *rand.Rand, dir string, idx int, f
 				}
 			}
 		}
+		nValid = 0
+		for _, op := range ops {
+			if op.Kind == "inc" {
+				nValid++
+			}
+		}
 		rep.EventN("updates_counted", nValid)
-		rep.EventN("updates_overlapping_a_rollover", overl)
+		if loopHistory {
+			// The sequence number is odd for the whole wait (up to a second).
+			rep.EventN("updates_while_waiting_for_the_real_loop", overl)
+		} else {
+			rep.EventN("updates_overlapping_a_rollover", overl)
+		}
 		roundDescs = append(roundDescs, map[string]any{"round": rd, "countable_updates": nValid, "rollovers": p.advances, "retention_toggles": p.toggles})
 		c.desc["rounds"] = roundDescs
 		c.checkReads(ops)
@@ -537,11 +582,7 @@ func c09ConcHistory(rep *verifkit.Report, rng *rand.Rand, dir string, idx int, f
 			canon += fmt.Sprintf("%s%d>%d;", op.Kind[:1], op.Client, op.Out)
 		}
 		rep.Eval(len(p.advances) > 0 && overl > 0, canon)
-		if free {
-			rep.Class("free-running")
-		} else {
-			rep.Class("round")
-		}
+		rep.Class("shape:" + shape)
 	}
 	if c.bad {
 		return
@@ -582,7 +623,7 @@ func c09ConcHistory(rep *verifkit.Report, rng *rand.Rand, dir string, idx int, f
 
 func TestVerifC09Concurrent(t *testing.T) {
 	rep := verifkit.New("C09", "concurrent",
-		"case = one round of a concurrent history on a running module (Start() loop alive): 8 updater goroutines + 2 readers of GET /control/stats (+ hour advancer calling flush() or waiting for the real loop, + optional retention toggler); checked per read (between completed and started updates), per round with porcupine against a counter model, at quiescence exactly (totals, categories, per-hour bounds from the hour tags), and across a final clean restart; -race is on; non-trivial = the round had a rollover that overlapped at least one update; distinct by the observed operation order and read values")
+		"case = one round of a concurrent history on a running module: 8 updater goroutines + 2 readers of GET /control/stats (+ hour advancer that either calls flush() as the only flusher or, with the real Start() loop alive, waits for it; + optional retention toggler); checked per read (between completed and started updates), per round with porcupine against a counter model, at quiescence exactly (totals, categories, per-hour bounds from the hour tags), and across a final clean restart; -race is on; non-trivial = the round had a rollover that overlapped at least one update; distinct by the observed operation order and read values")
 	defer func() {
 		if err := rep.Write(); err != nil {
 			t.Fatal(err)
@@ -599,9 +640,14 @@ func TestVerifC09Concurrent(t *testing.T) {
 	rng := rep.Rand("histories")
 	n := verifkit.Pick(40, 300)
 	for i := 0; i < n; i++ {
-		free := i%5 == 4
-		loopHistory := i%10 == 3 || i%10 == 9
-		c09ConcHistory(rep, rng, dir, i, free, loopHistory)
+		shape := "rounds"
+		switch {
+		case i%10 == 3:
+			shape = "loop"
+		case i%5 == 4:
+			shape = "free"
+		}
+		c09ConcHistory(rep, rng, dir, i, shape)
 	}
 	if rep.Violated() {
 		return
